@@ -58,6 +58,17 @@ FirstError(items) ==
     THEN CHOOSE i \in 1..Len(items) : items[i] = -1 /\ \A j \in 1..(i - 1) : items[j] # -1
     ELSE 0
 
+(* ---- trusted collection ----------------------------------------------------------- *)
+
+\* What a trusted source announces for n remaining items.  The crate's TrustedLen contract
+\* (trusted.rs) fixes the UPPER bound only; adaptors such as std::iter::Scan, which the crate
+\* marks trusted, announce a lower bound of 0.  A collector must size its allocation from the
+\* bound the contract fixes.
+Sources == {"exact", "scan", "scan_of_map", "rev_scan_free"}
+Hint(sk, n) == IF sk \in {"scan", "scan_of_map"} THEN <<0, n>> ELSE <<n, n>>
+CollectorAlloc(sk, n) == Hint(sk, n)[2]
+CollectAllocOK == \A sk \in Sources, n \in 0..MaxN : CollectorAlloc(sk, n) = n
+
 (* ---- the writer machine ----------------------------------------------------------- *)
 
 VARIABLES bl,        \* buffer length
